@@ -437,15 +437,24 @@ func (g *genRecx) Name() string { return "recx" }
 func (g *genRec2) Name() string { return "rec2" }
 func (g *genRec) GenerateType(c gengo.Context, n *types.Named) error {
 	g.name = "rec"
-	return g.do(c, n.Obj().Pkg().Path(), n.Obj().Name(), false)
+	return g.do(c, n.Obj().Pkg().Path(), recTypeName(n), false)
 }
 func (g *genRecx) GenerateType(c gengo.Context, n *types.Named) error {
 	g.name = "recx"
-	return g.do(c, n.Obj().Pkg().Path(), n.Obj().Name(), false)
+	return g.do(c, n.Obj().Pkg().Path(), recTypeName(n), false)
 }
 func (g *genRec2) GenerateType(c gengo.Context, n *types.Named) error {
 	g.name = "rec2"
-	return g.do(c, n.Obj().Pkg().Path(), n.Obj().Name(), false)
+	return g.do(c, n.Obj().Pkg().Path(), recTypeName(n), false)
+}
+
+// recTypeName: a blank-named type is told apart by its shape, so that a table that lets map order pick one of
+// several `_` declarations shows in the call log
+func recTypeName(n *types.Named) string {
+	if n.Obj().Name() == "_" {
+		return "_" + strings.ReplaceAll(n.Underlying().String(), " ", "")
+	}
+	return n.Obj().Name()
 }
 
 type genRecA struct{ genRec }
